@@ -73,6 +73,8 @@ enum PadClass {
     Blank,
     Unsigned,
     BadSignature,
+    /// counter and signature of an authentic version the owner really wrote, around another payload
+    PayloadSwapped,
     ForeignOwner,
     WrongKind,
     Garbage,
@@ -306,12 +308,13 @@ fn vault_case(cx: &mut Cx) {
     let nver = *[1usize, 2, 2, 3, 3, 4].choose(&mut cx.rng).expect("nonempty");
     let honest_only = cx.rng.gen_bool(0.15);
     let mut versions: Vec<PadVersion> = vec![];
+    let mut genuine_of_swapped: Option<(Vec<u8>, Vec<u8>)> = None;
     let base: u64 = cx.rng.gen_range(0..20);
     for i in 0..nver {
         let class = if honest_only {
             PadClass::Authentic
         } else {
-            *[PadClass::Authentic, PadClass::Authentic, PadClass::Authentic, PadClass::Unsigned, PadClass::Blank, PadClass::BadSignature, PadClass::ForeignOwner, PadClass::ForeignOwner, PadClass::WrongKind, PadClass::Garbage].choose(&mut cx.rng).expect("nonempty")
+            *[PadClass::Authentic, PadClass::Authentic, PadClass::Authentic, PadClass::Unsigned, PadClass::Blank, PadClass::BadSignature, PadClass::PayloadSwapped, PadClass::ForeignOwner, PadClass::ForeignOwner, PadClass::WrongKind, PadClass::Garbage].choose(&mut cx.rng).expect("nonempty")
         };
         let plaintext: Vec<u8> = if class == PadClass::Blank { vec![] } else { format!("version-{i}-{}", hex(&gen::bytes(&mut cx.rng, 6))).into_bytes() };
         let counter = match class {
@@ -347,6 +350,16 @@ fn vault_case(cx: &mut Cx) {
                 }
                 gen::pad_record(&raw.to_pad()).value
             }
+            PadClass::PayloadSwapped => {
+                // what the owner really signed at this counter (kept: a first read may see it), and the same counter and
+                // signature wrapped around another payload (anyone can encrypt to the owner's public key)
+                let genuine_plain = format!("genuine-{i}-{}", hex(&gen::bytes(&mut cx.rng, 6))).into_bytes();
+                let genuine = gen::pad(&owner, counter, &owner.public_key().encrypt_with_rng(&mut cx.rng, &genuine_plain).to_bytes(), 7);
+                let mut raw = gen::RawPad::from_pad(&genuine);
+                raw.encrypted_data = Bytes::from(cipher.clone());
+                genuine_of_swapped = Some((gen::pad_record(&genuine).value, genuine_plain));
+                gen::pad_record(&raw.to_pad()).value
+            }
             PadClass::ForeignOwner => gen::pad_record(&gen::pad(&foreign, counter, &cipher, 7)).value,
             PadClass::WrongKind => chunk_value(&Chunk::new(Bytes::from(plaintext.clone()))),
             PadClass::Garbage => gen::bytes_r(&mut cx.rng, 0, 80),
@@ -379,6 +392,38 @@ fn vault_case(cx: &mut Cx) {
     }
     let script: Vec<String> = replies.iter().map(|(p, v)| format!("h{p}:{:?}#{}", versions[*v].class, versions[*v].counter)).collect();
     let w = json!({"mode": "fetch_and_decrypt_vault", "replies": script, "terminal": format!("{terminal:?}")});
+    // a history: this process first reads the vault while every holder still serves what the owner really wrote at the
+    // counter a forger will reuse; whatever the client concluded then must not vouch for anything later
+    let mut earlier_reads = 0usize;
+    if let Some((genuine_value, genuine_plain)) = genuine_of_swapped.clone() {
+        if cx.rng.gen_bool(0.7) {
+            let client = cs.client.clone();
+            let sk = owner.clone();
+            let h0 = cs.sim.spawn(async move { client.fetch_and_decrypt_vault(&sk).await });
+            let mut drive_rng = cx.rng.clone();
+            let finished = {
+                let mut done = || h0.is_finished();
+                let mut answer = |_k: &libp2p::kad::RecordKey, _nth: usize| -> Vec<Reply> {
+                    let mut r: Vec<Reply> = (0..4).map(|p| Reply::Found(p, genuine_value.clone())).collect();
+                    r.push(Reply::Finished);
+                    r
+                };
+                cs.drive(&mut drive_rng, &Order::Fifo, &mut done, &mut answer)
+            };
+            if !finished {
+                h0.abort();
+                cx.inconclusive("vault read did not finish");
+                return;
+            }
+            earlier_reads = 1;
+            cx.count("vault:earlier-read-of-the-genuine-version");
+            match cs.sim.rt.block_on(h0) {
+                Ok(Ok((bytes, _))) if bytes.as_ref() == genuine_plain.as_slice() => {}
+                Ok(other) => cx.violation("vault-read-of-unanimous-authentic-version-failed", format!("four holders served the owner's signed version, the read gave {:?}", other.map(|(b, _)| b.len())), json!({})),
+                Err(e) => cx.violation("client-task-panicked:vault", format!("{e}"), json!({})),
+            }
+        }
+    }
     let client = cs.client.clone();
     let sk = owner.clone();
     let h = cs.sim.spawn(async move { client.fetch_and_decrypt_vault(&sk).await });
@@ -407,7 +452,7 @@ fn vault_case(cx: &mut Cx) {
         cx.violation("vault-read-asked-for-another-key", "the client did not ask for the scratchpad address of the owner's key", w.clone());
     }
     // versions that reached the client before its outcome (first query only; no retries are configured)
-    let delivered: Vec<usize> = cs.delivered.iter().filter(|(_, nth, _)| *nth == 0).filter_map(|(_, _, ri)| replies.get(*ri).map(|(_, v)| *v)).collect();
+    let delivered: Vec<usize> = cs.delivered.iter().filter(|(_, nth, _)| *nth == earlier_reads).filter_map(|(_, _, ri)| replies.get(*ri).map(|(_, v)| *v)).collect();
     let mut dv = delivered.clone();
     dv.sort();
     dv.dedup();
